@@ -25,3 +25,22 @@ Theorem C11_delivered_prefix_is_decoded : forall dict chunks k,
   is_prefix (out (inflate dict (concat (firstn k chunks)))) (out (inflate dict (concat chunks))).
 Proof. exact (delivered_prefix_is_decoded inflate_mono inflate_never_fuel). Qed.
 Print Assumptions C11_delivered_prefix_is_decoded.
+
+(* ---- on the engine model (proofs/EngineTop.v, from erun_kinds3): when the source has delivered `data`
+   and then ends or fails, the Reads have handed out everything the reference inflater decodes from
+   `data` except at most its last 2 bytes before the Read that reports the source's state -- and a
+   complete stream ends in io.EOF whatever the source does afterwards (t is arbitrary in
+   C02_engine_valid_stream_decoded).  The 2 bytes are real: the literals at the front of one
+   multi-symbol table entry whose last symbol is incomplete are rolled back (known finding F-C04);
+   at a sync-flush point the entry is complete and nothing is withheld, which the run-time check
+   establishes on the implementation.  So the property's "all the data encoded before that point" is a
+   theorem up to 2 bytes for arbitrary cut points (partial), and the exact statement at flush points
+   rests on the correspondence. *)
+From Verif Require Import Engine EngineRefineSpecTop EngineCorollaries EngineSafetyBuf EngineCompleteSpecC EngineTop.
+Theorem C11_engine_progress_partial : forall data cs bufsize t reads,
+  bytes_ok data -> cut_of cs data -> in_model_bounds bufsize cs -> enough_reads data reads ->
+  let l := fst (erun_ext bufsize cs t reads) in
+  (snd (last l ([], ROk)) = RUnexpectedEOF \/ snd (last l ([], ROk)) = RSrcErr) ->
+  exists z, out (Inflate.inflate [] data) = results_bytes l ++ z /\ (length z <= 2)%nat.
+Proof. exact engine_progress. Qed.
+Print Assumptions C11_engine_progress_partial.
